@@ -725,3 +725,105 @@ def check_C05(chk):
     chk.assumptions += ["ftruncate(n) gives an object whose fstat size is exactly n and whose first n bytes are what was written through any mapping (kernel / tmpfs semantics)",
                         "memfd_create is issued as a raw system call and is invisible to the shim (that build is observed through /proc/self/fd, /proc/self/maps and mmap lengths)"]
     finish_proof(chk, proof_ok, fails, [])
+
+
+# ------------------------------------------------------------------ C08 (server driver)
+def check_C08(chk):
+    import os
+    thorough = chk.tier == "thorough"
+    rng = random.Random(chk.seed)
+    proof_ok = C.proof_stage(chk, "C08")
+    bins = build_all(chk, ["default", "inprocess"])
+    if not all(bins.values()):
+        return
+    tmp = os.path.join(C.BUILD, "tmp", "srv-%d" % os.getpid())
+    os.makedirs(tmp, exist_ok=True)
+    cases, nid = [], itertools.count(1)
+    for order in ("accept_first", "connect_first", "mid"):
+        for client in ("thread", "fork", "spawn"):
+            for _ in range(12 if thorough else 3):
+                n = rng.randint(1, 20)
+                sizes = [rng.choice([10, 10, 10, 300, 5000, 9000]) for _ in range(n)]
+                cases.append({"id": next(nid), "order": order, "client": client, "sizes": sizes})
+    lines = ["id=%d order=%s client=%s sizes=%s" % (c["id"], c["order"], c["client"], ",".join(str(x) for x in c["sizes"])) for c in cases]
+    lines.append("id=%d op=many n=%d" % (next(nid), 200))
+    recs, trace, rc, err = C.run_harness(bins["default"], "server", lines, env_extra={"TMPDIR": tmp, "VSHIM_SNDBUF": 4096}, timeout=900)
+    by = {r["id"]: r for r in recs if r.get("kind") == "server"}
+    many = next((r for r in recs if r.get("kind") == "many"), None)
+    fails, todo = [], []
+    for k, c in enumerate(cases):
+        r = by.get(c["id"])
+        n = len(c["sizes"])
+        why = None
+        if r is None:
+            why = "harness produced no record: %s" % err[-200:]
+        elif not r["accepted"].get("ok"):
+            why = "accept failed or blocked for ever: %s" % r["accepted"].get("err")
+        elif r["seqs"][:1] != [0]:
+            why = "accept returned message %s instead of the first message the client sent" % r["seqs"][:1]
+        elif r["seqs"] != list(range(n)) or not r["intact"]:
+            why = "the receiver returned by accept yielded %s instead of the client's %d messages in order (intact=%s)" % (r["seqs"], n, r["intact"])
+        elif r["ended"] != "Disconnected":
+            why = "after the client's last message the receiver reported %s instead of disconnection" % r["ended"]
+        elif r["back_ok"] is False:
+            why = "the sender embedded in the first message does not work"
+        elif not r["exists_before_accept"]:
+            why = "the server's name did not exist in the file system before accept"
+        elif not r["accepted"].get("gone_after_accept"):
+            why = "the socket file still exists after accept returned"
+        elif r["tmp_after"] != r["tmp_before"]:
+            why = "temporary directory left behind after accept (%d -> %d entries)" % (r["tmp_before"], r["tmp_after"])
+        elif r["fds_after"] != r["fds_before"]:
+            why = "descriptors left behind after the rendezvous: %d -> %d" % (r["fds_before"], r["fds_after"])
+        if why:
+            fails.append((c, r, why))
+            continue
+        mid = max(1, n // 2) if c["order"] == "mid" and c["client"] != "spawn" else n
+        if c["order"] == "accept_first":
+            pre = ["SNew", "CConnect 0", "CSend 0 0", "SAccept 0"] + ["CSend 0 %d" % q for q in range(1, n)] + ["CExit 0"] + ["RRecv 0"] * (n - 1)
+        else:
+            pre = ["SNew", "CConnect 0"] + ["CSend 0 %d" % q for q in range(mid)] + (["CExit 0"] if mid == n else []) + ["SAccept 0"] + \
+                  ["CSend 0 %d" % q for q in range(mid, n)] + (["CExit 0"] if mid < n else []) + ["RRecv 0"] * (n - 1)
+        todo.append((k, "check_server [%s] [%s]" % ("; ".join(pre), "; ".join(str(x) for x in r["seqs"]))))
+    if many is None:
+        fails.append(({"many": 200}, None, "the many-servers scenario did not complete"))
+    else:
+        if not many["distinct"]:
+            fails.append(({"many": 200}, many, "two live servers share a name"))
+        elif not many["exist"] or many["tmp_during"] != many["n"]:
+            fails.append(({"many": 200}, many, "a live server's socket path / temp dir is missing"))
+        elif not many["gone"] or many["tmp_after"] != many["tmp_before"] or many["fds_after"] != many["fds_before"]:
+            fails.append(({"many": 200}, many, "dropping unused servers leaves file-system entries or descriptors behind"))
+    # in-process transport: same scenarios with a thread client
+    ilines = [l for l, c in zip(lines, cases) if c["client"] == "thread"]
+    irecs, _, _, ierr = C.run_harness(bins["inprocess"], "server", ilines, shim=False, timeout=300)
+    for r in irecs:
+        if r.get("kind") == "server":
+            c = next(x for x in cases if x["id"] == r["id"])
+            if not r["accepted"].get("ok") or r["seqs"] != list(range(len(c["sizes"]))) or r["ended"] != "Disconnected":
+                fails.append((dict(c, build="inprocess"), r, "in-process transport: accept/receive gave %s ended=%s" % (r["seqs"], r["ended"])))
+    for c, r, why in fails[:8]:
+        chk.failing_input(why, {"scenario": c, "observed": r}, key=str(c)[:300])
+    header = "From Coq Require Import List Bool.\nFrom IPC Require Import Server ServerCheck.\nImport ListNotations.\n"
+    res, errors = C.coq_eval_sharded(header, todo, lambda p: "Eval vm_compute in (%d, %s)." % p, "c08", shard=40)
+    bad = [cases[i] for i, _ in todo if res.get(i) != "true"]
+    # close-on-exec and the listen backlog straight from the trace
+    listens = [r for r in trace if r["call"] == "listen"]
+    cov = chk.coverage
+    cov["evaluations"] = len(cases) + 1 + len(ilines)
+    cov["traces_validated_against_impl"] = len(todo)
+    cov["distinct_nontrivial"] = len({(c["order"], c["client"], len(c["sizes"])) for c in cases if len(c["sizes"]) > 1})
+    cov["correspondence_mismatches"] = len(bad)
+    cov["listen_backlog_seen"] = sorted({r.get("backlog") for r in listens})
+    cov["rule"] = ("server driver: orders {accept first, client connects + sends everything + exits before accept, accept in the middle of the client's messages} x client as thread, "
+                   "forked child, spawned process x 1..20 messages of mixed single/multi-packet sizes with an embedded sender in the first; 200 servers alive at once (distinct names, "
+                   "clean drop); after accept: socket file, temp dir and descriptors gone; the receiver's message sequence compared with the Server LTS; in-process build too; "
+                   "non-trivial = more than one message")
+    for c in cases[:2]:
+        chk.sample({"scenario": c, "observed": by.get(c["id"]) and {k: by[c["id"]][k] for k in ("seqs", "ended")}})
+    if errors:
+        chk.unproved("model evaluation (coqc on generated cases) failed", errors[0][-1500:])
+    if bad and not fails:
+        chk.unproved("correspondence ServerCheck.check_server differs on %d of %d scenarios" % (len(bad), len(todo)), {"scenario": bad[0]})
+    chk.assumptions += ["tempfile's names are unique (assumed); bind/listen/connect/accept semantics and SO_LINGER are kernel behaviour; socket paths of 108 bytes or more are outside the precondition"]
+    finish_proof(chk, proof_ok, fails, bad)
